@@ -130,7 +130,7 @@ def r1_table_subset_of_isa(ctx: Ctx) -> None:
             ctx.fail(construct, f"table byte 0x{byte:02X} but the 65c816 opcode is 0x{isa[key]:02X}")
         else:
             ctx.ok(construct, f"0x{byte:02X}")
-    ctx.floor("table_entries", 200)
+    ctx.floor("table_entries", 133)
     # the literal must be what the lookups read: opcode_def / opcode stored unchanged
     init = ctx.repo.func(CPU, "Opcode.__init__")
     stores = [n for n in ast.walk(init.node) if isinstance(n, ast.Assign) and dotted(n.targets[0]) == "self.opcode_def"]
@@ -179,7 +179,7 @@ def r2_supported_set_kept(ctx: Ctx) -> None:
         construct = f"supported:{mn}/{mode}/{idx or '-'}/{width}"
         ctx.check((mn, mode, idx, width) in have, construct,
                   "a combination of the assembler's supported set no longer has a table entry (it is now rejected)")
-    ctx.floor("supported_tuples", 220)
+    ctx.floor("supported_tuples", 146)
 
 
 def r3_operand_packing(ctx: Ctx) -> None:
@@ -222,7 +222,7 @@ def r3_operand_packing(ctx: Ctx) -> None:
         for j, (g, w) in enumerate(zip(got, want)):
             ok = (g.source, g.bit) == (w.source, w.bit) and not g.signed and not g.checked
             ctx.check(ok, f"{construct}:byte{j}", f"emits {g}; the operand truncated to its width, little-endian, needs {w} (masked, so wider values truncate instead of raising)")
-    ctx.floor("packing_arms", 3)
+    ctx.floor("packing_arms", 2)
     # Opcode.emit = opcode byte + operand bytes, both keyed by the same width
     em = ctx.repo.func(CPU, "Opcode.emit")
     env = single_assignments(em.node)
@@ -625,7 +625,7 @@ def r7_field_plumbing(ctx: Ctx) -> None:
     em = ctx.repo.func(NODES, "OpcodeNode.emit")
     ecall = [c for c in calls_in(em.node) if call_name(c) == "opcode_emitter.emit"]
     ctx.check(len(ecall) == 1 and [unparse(a) for a in ecall[0].args] == ["self.value_node", "self.resolver", "self.size"], "OpcodeNode.emit:arguments", "the emitter receives this node's operand and explicit width")
-    ctx.floor("OpcodeNode_constructions", 3)
+    ctx.floor("OpcodeNode_constructions", 2)
 
 
 def r8_lexer_token_facts(ctx: Ctx) -> None:
